@@ -110,7 +110,7 @@ def _discharge(ob, timeout_ms, unfolder=None, lemmas=(), twin_lemmas=()):
             stop = False
             for depth in (1, 2, 3):
                 try:
-                    r = unfolder.attempt(ob.pc, ob.goal, depth, min(timeout_ms, 1500 * depth), extra=twin_lemmas,
+                    r = unfolder.attempt(ob.pc, ob.goal, depth, min(timeout_ms, 500 + 700 * depth), extra=twin_lemmas,
                                          seed=seed, mbqi=mbqi)
                 except z3.Z3Exception:
                     stop = True
@@ -241,22 +241,34 @@ def verify_one(task):
     return rec
 
 
-def retry_function(contract_module, qualname, wanted, rounds=3, timeout_ms=30000):
+def retry_function(contract_module, qualname, wanted, rounds=2, timeout_ms=15000, budget_s=120):
     """Second opinion for obligations that were discharged on the unchanged tree but came back 'unknown':
     the function is re-verified in fresh processes with other solver seeds and a longer budget. Returns the set of
     obligation names (from `wanted`) that were discharged in some round. A refutation is never overturned."""
     proved = set()
     ctxm = mp.get_context("fork")
+    t_end = time.time() + budget_s
     for k in range(1, rounds + 1):
+        remaining = t_end - time.time()
+        if remaining < 5:
+            break
         os.environ["PYVC_SEED_OFFSET"] = str(10 * k)
+        pool = ctxm.Pool(1, maxtasksperchild=1)
         try:
-            with ctxm.Pool(1, maxtasksperchild=1) as pool:
-                rec = pool.map(verify_one, [(contract_module, qualname, timeout_ms)])[0]
+            rec = pool.map_async(verify_one, [(contract_module, qualname, timeout_ms)]).get(timeout=remaining)[0]
+        except mp.TimeoutError:
+            pool.terminate()
+            break
         finally:
             os.environ.pop("PYVC_SEED_OFFSET", None)
+            pool.terminate()
+        # several paths can produce obligations with the same name: a name counts only if ALL of them are discharged
+        by_name = {}
         for o in rec["obligations"]:
-            if o["result"] == "proved":
-                proved.add(o["name"])
+            by_name.setdefault(o["name"], []).append(o["result"] == "proved")
+        for n, oks in by_name.items():
+            if all(oks):
+                proved.add(n)
         if all(w in proved for w in wanted):
             break
     return proved
